@@ -224,7 +224,13 @@ impl Shell {
                     if let Some(i_pid) = x.pids.iter().position(|x| *x == pid) {
                         x.pids.remove(i_pid);
                     }
+                    x.pids_stopped.remove(&pid);
                     empty_pids = x.pids.is_empty();
+                    // the remaining members decide the state of the job
+                    if !empty_pids && x.all_members_stopped() {
+                        x.status = "Stopped".to_string();
+                        x.is_bg = true;
+                    }
                     break;
                 }
             }
